@@ -433,6 +433,23 @@ theorem RxMsg.appendBurstTo_total (m : RxMsg) (buf : Bytes) :
     obtain ⟨u, hu, _⟩ := sbit2usbit_total b
     exact ⟨u, by simp only [hu, bind, Except.bind, pure, Except.pure]⟩
 
+theorem RxMsg.appendBurstTo_len (m : RxMsg) (buf : Bytes) :
+    ∃ u, m.appendBurstTo buf = .ok (buf ++ u) ∧ (m.burst = none → u = []) ∧
+      (∀ b, m.burst = some b → u.length = b.length) := by
+  unfold RxMsg.appendBurstTo
+  cases hb : m.burst with
+  | none =>
+    refine ⟨[], by simp, fun _ => rfl, ?_⟩
+    intro b h; cases h
+  | some b =>
+    obtain ⟨u, hu, hl⟩ := sbit2usbit_total b
+    refine ⟨u, ?_, ?_, ?_⟩
+    · simp only [hu, bind, Except.bind, pure, Except.pure]
+    · intro h; cases h
+    · intro b' h
+      cases h
+      exact hl
+
 theorem RxMsg.appendBurstTo_eq (m : RxMsg) (buf : Bytes) (hw : m.WellTyped) :
     m.appendBurstTo buf =
       .ok (buf ++ (match m.burst with | some b => b.map softOctet | none => [])) := by
